@@ -894,9 +894,21 @@ func simEntries[K comparable, V any](m map[K]V, site string) []simEntry[K, V] {
 	return out
 }
 
+// SimLockStuck is called when the simulator's lock table granted the mutex (nobody the simulator knows of holds it) and the real
+// mutex is locked all the same - a mutex value copied while held, for instance. It does not return in a simulation (the caller
+// would block for ever in m.Lock, which a synctest bubble cannot see); it parks the caller durably so that the run ends in a
+// deadlock verdict.
+var SimLockStuck func(m *sync.Mutex, site string)
+
 func simLock(m *sync.Mutex, site string) {
 	if SimBeforeLock != nil {
 		SimBeforeLock(m, site)
+	}
+	if SimLockStuck != nil {
+		if m.TryLock() {
+			return
+		}
+		SimLockStuck(m, site)
 	}
 	m.Lock()
 }
